@@ -251,3 +251,33 @@ Lemma invert_bool_refuted : forall debug,
   exists v, eval_unary_nofix debug UInvert (VBool true) = Ok (Some v) /\
             forall v', py_unary UInvert (PBool true) = PyOk v' -> ~ same_value v v'.
 Proof. intros []; refute (VBool false). Qed.
+
+(** 9. `/` on integers rounds twice when an operand above 2^53 is not exactly an f64 *)
+Lemma div_double_rounding_refuted : forall debug,
+  disagrees (eval_bin_nofix debug ODiv (VNat 14098162137463602736) (VNat 4705193143269049554))
+            (py_eval ODiv (PInt 14098162137463602736) (PInt 4705193143269049554)).
+Proof.
+  intros []; (eexists; split; [vm_compute; reflexivity
+                              | intros v' E; vm_compute in E; inversion E; subst; vm_compute; congruence]).
+Qed.
+
+(** the repaired evaluator (Model.v) on the same inputs: folded to the run-time value or not evaluated *)
+Lemma repaired_on_witnesses :
+  eval_bin true OAdd (VFloat (f 3 2)) (VNat 2) = Ok (Some (VFloat (f 7 2))) /\
+  eval_bin true OFloorDiv (VInt (-7)) (VNat 2) = Ok (Some (VInt (-4))) /\
+  eval_bin true OMod (VInt (-7)) (VNat 2) = Ok (Some (VInt 1)) /\
+  eval_bin true OAdd (VInt (-2147483648)) (VInt (-1)) = Ok None /\
+  eval_bin true OMul (VNat 4294967296) (VNat 4294967296) = Ok None /\
+  eval_bin true OPow (VNat 2) (VNat 64) = Ok None /\
+  eval_unary true UNeg (VNat 2147483648) = Ok (Some (VInt (-2147483648))) /\
+  eval_bin true OFloorDiv (VNat 7) (VNat 0) = Ok None /\
+  eval_bin true OFloorDiv (VInt (-2147483648)) (VInt (-1)) = Ok (Some (VNat 2147483648)) /\
+  eval_bin true ODiv (VNat 7) (VNat 0) = Ok None /\
+  eval_bin true OSub (VNat 3000000000) (VNat 1) = Ok (Some (VNat 2999999999)) /\
+  eval_bin true OEq (VInt (-1)) (VNat 4294967295) = Ok (Some (VBool false)) /\
+  eval_bin true OEq (VNat 9007199254740993) (VFloat (Z2F 9007199254740992)) = Ok (Some (VBool false)) /\
+  eval_bin true OFloorDiv (VFloat (Z2F 1)) (VFloat (f 1 10)) = Ok (Some (VFloat (Z2F 9))) /\
+  eval_bin true OMod (VFloat (Z2F (-1))) (VFloat (Z2F 3)) = Ok (Some (VFloat (Z2F 2))) /\
+  eval_unary true UInvert (VBool true) = Ok (Some (VInt (-2))) /\
+  eval_bin true ODiv (VNat 14098162137463602736) (VNat 4705193143269049554) = Ok None.
+Proof. repeat split; vm_compute; reflexivity. Qed.
